@@ -75,6 +75,9 @@ func programFormat() px.FormatContext {
 
 func hx(s string) string { return sx.Str(s).Atom }
 
+// floatShape: the texts of finite floats in program format (twin of FTail in lean/Pcore/Proofs/FloatLex.lean)
+var floatShape = regexp.MustCompile(`^-?[0-9]+(\.[0-9]+(e[+-][0-9]+)?|e[+-][0-9]+)$`)
+
 // exec runs one op under a deadline of its own: on the original tree PuppetQuote does not return for a string that
 // holds U+FFFD (and allocates without bound while it spins)
 func exec(c px.Context, op string, args []sx.Sexp) (res core.Result) {
@@ -297,6 +300,11 @@ func rtValue(c px.Context, op string, v px.Value, nt bool, _ string) core.Result
 		return tagged(core.Fail("print-"+o.Kind, cls, o.Msg), op)
 	}
 	out := hx(text)
+	if _, isFloat := v.(px.Float); isFloat && !floatShape.MatchString(text) {
+		// the part of the float parameter that is assumed, not proved: the formatter's text has one of the shapes of %g
+		// ([-]D+.D+, [-]D+.D+e±D+, [-]D+e±D+) — the shapes C05_float_text_lexes covers
+		return tagged(core.Fail(out+" rt=f", "float-text-shape", fmt.Sprintf("the float prints as %q, which is none of the shapes D+.D+ / D+.D+e±D+ / D+e±D+", text)), op)
+	}
 	o := syn.Parse(text)
 	if o.Kind == "skipped" {
 		return core.Result{Out: "skipped", Pred: "n/a", Tags: []string{op, "skipped-after-timeouts"}}
